@@ -2,6 +2,7 @@ package main
 
 import (
 	"fmt"
+	"go/ast"
 	"go/token"
 	"go/types"
 	"sort"
@@ -679,6 +680,7 @@ func checkC20gcs(p *Program, r *Report) {
 		}
 		r.Add("C20.gcs", FnName(m), "method does not write receiver-reachable memory", m.Pos(), len(bad) == 0, how)
 	}
+	gcsQueryRule(p, r, ef, "C20.gcs")
 	// construction: every store to a []byte field of Filter outside methods stores a fresh slice
 	st := ft.Type().Underlying().(*types.Struct)
 	nstores := 0
@@ -718,5 +720,50 @@ func checkC20gcs(p *Program, r *Report) {
 	r.Floor("C20.gcs", 12)
 	if nstores < 2 {
 		r.Add("C20.gcs", "-", fmt.Sprintf("vacuity: %d construction stores of the data slice found, floor 2", nstores), token.NoPos, false, "kind=below-floor")
+	}
+}
+
+// gcsQueryRule: what a gcs.Filter hands out and what it is handed.  (a) No exported method writes memory reachable from
+// its arguments (a query list compacted or sorted in place is shared with the caller's other goroutines and with its
+// next query).  (b) No exported method returns memory reachable from the receiver: a caller that scrubs or reuses the
+// slice it got from Bytes() would change what every later query decodes.  Filed by C20 (immutability) and by C13 (a
+// member stays a member for the life of the filter).
+func gcsQueryRule(p *Program, r *Report, ef *Effects, rule string) {
+	n := 0
+	for _, m := range p.Methods("gcs", "Filter") {
+		if !ast.IsExported(m.Name()) {
+			continue
+		}
+		n++
+		var bad []string
+		for _, e := range ef.WriteEffects(m) {
+			if e.Root.Kind == rkParam && e.Root.Idx >= 1 {
+				bad = append(bad, fmt.Sprintf("%s %s at %s", e.What, e.Root, p.Pos(e.Pos)))
+			}
+		}
+		sort.Strings(bad)
+		bad = dedup(bad)
+		how := "no store, copy, append or in-place helper targets memory reachable from an argument"
+		if len(bad) > 0 {
+			how = strings.Join(bad, "; ")
+		}
+		r.Add(rule, FnName(m), "method leaves its arguments untouched", m.Pos(), len(bad) == 0, how)
+		var leaks []string
+		for i, rs := range ef.returnSummary(m) {
+			for root := range rs {
+				if root.Kind == rkParam && root.Idx == 0 {
+					leaks = append(leaks, fmt.Sprintf("result #%d may be %s", i, root))
+				}
+			}
+		}
+		sort.Strings(leaks)
+		how = "every reference it returns is to memory allocated by the call"
+		if len(leaks) > 0 {
+			how = strings.Join(dedup(leaks), "; ") + " — the filter's own storage"
+		}
+		r.Add(rule, FnName(m), "method hands out no reference into the filter", m.Pos(), len(leaks) == 0, how)
+	}
+	if n == 0 {
+		r.Unresolved(rule, "exported methods of gcs.Filter")
 	}
 }
